@@ -1,7 +1,10 @@
 package props
 
 import (
+	"fmt"
 	"golang.org/x/tools/go/ssa"
+	"os"
+	"strings"
 
 	"idenaverif/internal/engine"
 )
@@ -46,6 +49,56 @@ func C01(p *engine.Prog, r *engine.Report) {
 	// node history (rolled back / reused cache): the validator view is rebuilt from scratch
 	cacheRebuildRule(p, r, "C01-R5", validatorsCacheContainers(p))
 	r.Floor("C01-R5", 6, "container fields of ValidatorsCache")
+	c01R6(p, r, "C01-R6", entries)
+}
+
+// c01R6: node-local chain position. The transition is a function of (prior state, block, parent
+// header): inside its reach set no field of the node object that records where THIS node stands
+// (Blockchain.Head, PreliminaryHead, isSyncing, genesisInfo is chain data and allowed) is read. The
+// builder's own use of the head happens in ProposeBlock, outside the reach set; filterTxs/validateBlock
+// get the header and the parent as parameters.
+func c01R6(p *engine.Prog, r *engine.Report, rule string, entries []*ssa.Function) {
+	local := map[string]bool{"Head": true, "PreliminaryHead": true, "isSyncing": true}
+	// frozen by reading: one line of reason per exception
+	exempt := map[string]string{
+		"ValidationCeremony.shouldInteractWithNetwork": "gates only this node's own logging, broadcasts, key-sync stop and flip preloading (it also reads the wall clock, an A1 instance); no state write depends on it",
+	}
+	reach := detReach(p, entries)
+	n := 0
+	var bad []string
+	seenF := map[string]bool{}
+	for _, f := range engine.SortedFuncs(reach) {
+		if f.Blocks == nil || isTestish(p.Pos(f.Pos())) {
+			continue
+		}
+		n++
+		for _, b := range f.Blocks {
+			for _, ins := range b.Instrs {
+				fa, ok := ins.(*ssa.FieldAddr)
+				if !ok {
+					continue
+				}
+				if o, fld, ok := engine.FieldOf(fa); ok && o == "Blockchain" && local[fld] {
+					if why, isEx := exempt[engine.RelName(f)]; isEx {
+						r.Note(rule, engine.RelName(f)+"|exempt", p.InstrPos(fa), why)
+						continue
+					}
+					k := engine.RelName(f) + " reads chain." + fld
+					if !seenF[k] {
+						seenF[k] = true
+						bad = append(bad, k+" at "+p.InstrPos(fa))
+					}
+				}
+			}
+		}
+	}
+	if os.Getenv("VERIF_DEBUG_C01R6") != "" {
+		for _, b := range bad {
+			fmt.Fprintln(os.Stderr, "C01R6", b)
+		}
+	}
+	r.Check(len(bad) == 0, rule, "transition reach set|no read of the node's own chain position", "", fmt.Sprintf("%d functions scanned for Blockchain.{Head,PreliminaryHead,isSyncing}", n), "the result of validating/applying a block depends on where this node's own head is: "+strings.Join(bad, "; "))
+	r.Floor(rule, 1, "reach set scan")
 }
 
 // c01R4: ordered commit — every tree write in Precommit happens inside a loop over a
